@@ -85,18 +85,106 @@ def _shift_block(b, off_l, off_b):
     return nb
 
 
-def inlined(facts, body, depth=MAX_DEPTH, skip=None, tag=None, sugar=False):
+def _monomorphise(facts, t, subst):
+    """A call inside a generic callee that was inlined at a call site with known type arguments: the type
+    parameters in its own type arguments are replaced, and a call to a method of a crate trait on a type
+    parameter (`<S as Span>::first`) is resolved to the impl for the concrete type."""
+    if not subst:
+        return t
+    t = dict(t)
+    if t.get("targs"):
+        t["targs"] = [subst.get(x, x) for x in t["targs"]]
+    st = t.get("self_ty")
+    if st in subst and t.get("trait") and not t.get("res"):
+        conc = subst[st]
+        name = t.get("name")
+        for imp in facts.impls:
+            if imp.get("trait") != t["trait"]:
+                continue
+            if imp.get("self_ty") == conc or (imp.get("self_adt") and imp.get("self_adt") == conc.split("<")[0].lstrip("&")):
+                for m in imp.get("methods", []):
+                    if m.get("name") == name and facts.body(m.get("def") or "") is not None:
+                        t["res"] = m["def"]
+                        t["self_ty"] = conc
+                        t["mono"] = True
+                        return t
+                # the impl does not override it: the trait's provided method
+                dflt = facts.body(t.get("def") or "")
+                if dflt is not None and dflt.kind in ("Fn", "AssocFn"):
+                    t["res"] = dflt.id
+                    t["self_ty"] = conc
+                    t["mono"] = True
+                    return t
+    elif st in subst:
+        t["self_ty"] = subst[st]
+    return t
+
+
+def _mono_const(facts, op, subst):
+    """`<D as Trait>::CONST` with D a substituted type parameter: the constant of the impl for the concrete type"""
+    k = op.get("k") if isinstance(op, dict) else None
+    if not (isinstance(k, dict) and k.get("uneval") and k.get("uneval_self") in subst and k.get("promoted") is None):
+        return op
+    conc = subst[k["uneval_self"]]
+    trait, _, cname = k["uneval"].rpartition("::")
+    for b in facts.bodies.values():
+        if b.kind == "AssocConst" and b.promoted is None and b.id.endswith("::" + cname) and b.d.get("impl_trait") == trait \
+                and (b.d.get("impl_self") == conc or b.impl_self_adt == conc.split("<")[0]):
+            k2 = dict(k)
+            k2["uneval"] = b.id
+            k2["uneval_self"] = conc
+            return {"k": k2}
+    return op
+
+
+def _mono_block(facts, nb, subst):
+    """applies a type-argument substitution to one (copied) block: calls are resolved, closures built in it
+    remember the substitution (their bodies are generic over the same parameters)"""
+    if not subst:
+        return
+    if nb["term"] and nb["term"]["k"] == "call":
+        nb["term"] = _monomorphise(facts, nb["term"], subst)
+        nb["term"]["args"] = [_mono_const(facts, a, subst) for a in nb["term"]["args"]]
+    for i, st in enumerate(nb["stmts"]):
+        if st["k"] == "assign":
+            rv = st["rv"]
+            chg = {}
+            for key in ("op", "a", "b"):
+                if isinstance(rv.get(key), dict) and "k" in rv[key]:
+                    o2 = _mono_const(facts, rv[key], subst)
+                    if o2 is not rv[key]:
+                        chg[key] = o2
+            if rv.get("ops"):
+                ops2 = [_mono_const(facts, o, subst) for o in rv["ops"]]
+                if any(a is not b for a, b in zip(ops2, rv["ops"])):
+                    chg["ops"] = ops2
+            if chg:
+                st = dict(st)
+                st["rv"] = dict(rv, **chg)
+                nb["stmts"][i] = st
+    for st in nb["stmts"]:
+        if st["k"] == "assign" and st["rv"]["k"] == "agg" and st["rv"].get("agg") in ("closure", "coroutine"):
+            st["rv"] = dict(st["rv"])
+            st["rv"]["mono"] = dict(subst)
+
+
+def inlined(facts, body, depth=MAX_DEPTH, skip=None, tag=None, sugar=False, subst=None):
     """Body with crate-local plain function calls inlined (cached on the body per `tag`; a `skip`
     predicate must come with its own tag). With sugar=True the closure-taking combinators of Option /
     Result / bool and iterator pipelines are expanded into explicit control flow as well
     (engine.desugar)."""
     tag = (tag or (getattr(skip, "__name__", "skip") if skip else "all")) + ("+sugar" if sugar else "")
+    if subst:
+        tag += "+mono:" + ";".join("%s=%s" % kv for kv in sorted(subst.items()))
     cache = body.__dict__.setdefault("_inlined_cache", {})
     if tag in cache:
         return cache[tag]
     d = {k: v for k, v in body.d.items() if k not in ("locals", "blocks")}
     locals_ = [dict(l) for l in body.locals]
     blocks = [copy.deepcopy(b) for b in body.blocks]
+    if subst:
+        for nb0 in blocks:
+            _mono_block(facts, nb0, subst)
     origin = [(body.id, i) for i in range(len(blocks))]
     work = [(i, 0, (body.id,)) for i in range(len(blocks))]
     sg = None
@@ -152,8 +240,13 @@ def inlined(facts, body, depth=MAX_DEPTH, skip=None, tag=None, sugar=False):
         cont = t["t"]
         dest = t["dest"]
         span = t.get("span")
+        # type arguments of this call site, by the callee's type-parameter names (composed with the caller's own)
+        gen = cb.d.get("generics") or []
+        targs = t.get("targs") or []
+        csub = dict(zip(gen, targs)) if gen and len(gen) == len(targs) and any(g != a for g, a in zip(gen, targs)) else {}
         for ci, cblk in enumerate(cb.blocks):
             nb = _shift_block(cblk, off_l, off_b)
+            _mono_block(facts, nb, csub)
             tt = nb["term"]
             if tt and tt["k"] == "return" and not nb["cleanup"]:
                 nb["stmts"].append({"k": "assign", "lhs": dest, "rv": {"k": "use", "op": {"m": {"l": off_l, "p": []}}}, "span": span, "inl_ret": cb.id})
